@@ -100,6 +100,8 @@ pub struct Params {
 
 #[derive(Clone, Debug)]
 pub struct ParCfg {
+    /// source is `iter().par_bridge()` (unindexed, items handed out in arbitrary order) instead of a slice
+    pub bridge: bool,
     pub threads: usize,
     pub min_len: usize,
     pub max_len: usize,
@@ -231,8 +233,16 @@ where
     let byref = cfg.byref;
     let fseed = cfg.filter_seed;
     let fge = cfg.filter_ge;
+    let bridge = cfg.bridge;
     with_pool(cfg.threads, move || {
-        if byref {
+        if bridge {
+            use rayon::iter::ParallelBridge;
+            if byref {
+                data.iter().par_bridge().filter(|x| keep2(**x, fseed, fge)).map(|x| { delay(*x, seed); x }).collect()
+            } else {
+                data.to_vec().into_iter().par_bridge().filter(|x| keep2(*x, fseed, fge)).map(|x| { delay(x, seed); x }).collect()
+            }
+        } else if byref {
             let it = data.par_iter();
             match (min_len, max_len) {
                 (0, 0) => it.filter(|x| keep2(**x, fseed, fge)).map(|x| { delay(*x, seed); x }).collect(),
